@@ -6,14 +6,38 @@ use crate::rng::Rng;
 use crate::Args;
 use cao_lang::compiler::{compile, CompileOptions, Module};
 
-/// runs the compiler; a panic is an observation
-pub fn run_compile(m: &Module, recursion_limit: u32) -> Option<String> {
+/// runs the compiler; a panic is an observation. Second component: the disassembler's instruction starts.
+pub fn run_compile(m: &Module, recursion_limit: u32) -> Option<(String, String)> {
     let m2 = m.clone();
     let r = std::panic::catch_unwind(move || compile(m2, CompileOptions { recursion_limit }));
     match r {
-        Err(_) => Some("CPanic".to_string()),
-        Ok(r) => modgen::coq_result(&r),
+        Err(_) => Some(("CPanic".to_string(), "None".to_string())),
+        Ok(r) => {
+            let d = match &r {
+                Ok(p) => out::opt(disasm_starts(m, p).map(|v| out::list(v.into_iter().map(out::n)))),
+                Err(_) => "None".to_string(),
+            };
+            modgen::coq_result(&r).map(|x| (x, d))
+        }
     }
+}
+
+fn has_native_function_card(m: &Module) -> bool {
+    fn c(card: &cao_lang::compiler::Card) -> bool {
+        matches!(card.body, cao_lang::compiler::CardBody::NativeFunction(_)) || card.iter_children().any(c)
+    }
+    m.functions.iter().any(|(_, f)| f.cards.iter().any(c)) || m.submodules.iter().any(|(_, s)| has_native_function_card(s))
+}
+
+/// instruction starts as listed by `disassemble_string` (first column). Not attempted when the module
+/// has a NativeFunction card: Instruction::span is off by one for NativeFunctionPointer, the
+/// disassembler then reads operand bytes as opcodes and transmutes them into the enum (UB).
+pub fn disasm_starts(m: &Module, p: &cao_lang::prelude::CaoCompiledProgram) -> Option<Vec<u64>> {
+    if has_native_function_card(m) {
+        return None;
+    }
+    let s = p.disassemble_string();
+    Some(s.lines().filter_map(|l| l.split('\t').next().and_then(|x| x.parse::<u64>().ok())).collect())
 }
 
 fn count_cards(m: &Module) -> usize {
@@ -53,14 +77,17 @@ pub fn gen(a: &Args) {
         };
         let mterm = modgen::coq_module(&m);
         out::describe_current(&format!("C10 case {} (recursion_limit {}): compile {}", i + 1, limit, mterm));
-        let obs = match run_compile(&m, limit) {
+        let (obs, disasm) = match run_compile(&m, limit) {
             Some(o) => o,
             None => {
                 // an error payload outside the modelled set: report as a generator-precondition case
                 w.count("obs.unmodelled_error");
-                "(CErr EEmptyProgram None)".to_string()
+                ("(CErr EEmptyProgram None)".to_string(), "None".to_string())
             }
         };
+        if disasm != "None" {
+            w.count("disasm.compared");
+        }
         let class = if obs.starts_with("(COk") {
             "obs.ok".to_string()
         } else if obs == "CPanic" {
@@ -77,7 +104,7 @@ pub fn gen(a: &Args) {
             w.count("opt.small_recursion_limit");
         }
         let ncards = count_cards(&m);
-        let term = format!("(mkcase {} {} {} {})", mterm, out::n(limit as u64), out::b(debug), obs);
+        let term = format!("(mkcase {} {} {} {} {})", mterm, out::n(limit as u64), out::b(debug), obs, disasm);
         w.push(term, ncards >= 3);
     }
     w.finish(serde_json::json!({"many_globals": many_globals}));
